@@ -19,7 +19,8 @@
            | (v r BLOCK lat res)               Ledger.Validate was called
            | (w src r BLOCK CERT lat res validated cm au)   AddBlock/AddValidatedBlock was called
            | (s lat)                           pipelinedFetch read firstRound = lat+1 (the pipeline starts here;
-                                               before it only somebody else can have written blocks)
+                                               before it only somebody else can have written blocks
+                                               or cancelled the service)
            | (x)                               the service context was cancelled
            | (end k)                           pipelinedFetch returned
    Two comparisons with the model:
@@ -344,13 +345,14 @@ Fixpoint validate (cfg : config) (dis : N) (fuel : nat) (st : mstate) (es : list
 
 (* events before the pipeline started: only writes by somebody else.  Returns the ledger's latest
    round at the start and the remaining events. *)
-Fixpoint split_start (lat : N) (es : list ievent) : option (N * list ievent) :=
+Fixpoint split_start (lat : N) (cancelled : bool) (es : list ievent) : option (N * bool * list ievent) :=
   match es with
-  | IStart l :: t => if l =? lat then Some (lat, t) else None
+  | IStart l :: t => if l =? lat then Some (lat, cancelled, t) else None
+  | ICancel :: t => split_start lat true t
   | IWrite false r _ _ l res _ _ _ :: t =>
       if l =? lat then
-        if res =? 0 then (if r =? lat + 1 then split_start (lat + 1) t else None)
-        else split_start lat t
+        if res =? 0 then (if r =? lat + 1 then split_start (lat + 1) cancelled t else None)
+        else split_start lat cancelled t
       else None
   | _ => None
   end.
@@ -474,9 +476,13 @@ Definition check (t : term) : term :=
           let sok := spec_ok (c_verify_payset cfg) (c_verify_cert cfg) lat0 log flat fids in
           let fuel := (2 * List.length es + 2 * N.to_nat (c_parallel cfg) + 64)%nat in
           let st0 : mstate := init lat0 in
-          let val := match split_start lat0 es with
-                     | Some (lat_s, es') =>
-                         match validate cfg dis fuel (init lat_s) es' 0 with
+          let val := match split_start lat0 false es with
+                     | Some (lat_s, cancelled, es') =>
+                         let st_s : mstate := init lat_s in
+                         let st_s := if cancelled
+                                     then match mstep cfg st_s LCancel with Some x => x | None => st_s end
+                                     else st_s in
+                         match validate cfg dis fuel st_s es' 0 with
                          | inl st => inl (st, lat_s)
                          | inr i => inr (i + N.of_nat (List.length es - List.length es'))
                          end
